@@ -51,7 +51,7 @@ fn noise(r: &mut Rng) -> String {
 }
 fn grammar(r: &mut Rng) -> String {
     fn e(r: &mut Rng, d: usize) -> String {
-        if d == 0 || r.chance(1, 3) { return r.pick(&["x", "y", "x_1", "x_i", "2", "0.5", "A[0]", "A[i]", "len(A)", "n", "true", "\"s\"", "x_{i + 1}", "M[0][1]", "-3", "(x)"]).to_string(); }
+        if d == 0 || r.chance(1, 3) { return r.pick(&["x", "y", "x_1", "x_i", "2", "0.5", "A[0]", "A[i]", "len(A)", "n", "true", "\"s\"", "x_{i + 1}", "M[0][1]", "-3", "(x)", "A[len(A)]", "A[3]", "A[n]", "M[1][1]", "M[0][2]", "M[2]", "A[len(A) - 1]", "A[-1]"]).to_string(); }
         match r.below(12) {
             0 => format!("{} + {}", e(r, d - 1), e(r, d - 1)), 1 => format!("{} - {}", e(r, d - 1), e(r, d - 1)), 2 => format!("{} * {}", e(r, d - 1), e(r, d - 1)), 3 => format!("{} / {}", e(r, d - 1), e(r, d - 1)),
             4 => format!("({})", e(r, d - 1)), 5 => format!("-{}", e(r, d - 1)), 6 => format!("abs {{ {} }}", e(r, d - 1)), 7 => format!("min {{ {}, {} }}", e(r, d - 1), e(r, d - 1)),
@@ -60,7 +60,7 @@ fn grammar(r: &mut Rng) -> String {
         }
     }
     let depth = 1 + r.below(5);
-    let cons: Vec<String> = (0..1 + r.below(3)).map(|_| format!("    {}{} {} {}{}", if r.chance(1, 3) { "c_i: " } else { "" }, e(r, depth), r.pick(&["<=", ">=", "=", "<", ">"]), e(r, 1), if r.chance(1, 3) { " for i in 0..n" } else { "" })).collect();
+    let cons: Vec<String> = (0..1 + r.below(5)).map(|_| format!("    {}{} {} {}{}", match r.below(4) { 0 => "c_i: ", 1 => "c: ", _ => "" }, e(r, depth), r.pick(&["<=", ">=", "=", "<", ">"]), e(r, 1), if r.chance(1, 3) { " for i in 0..n" } else { "" })).collect();
     format!("{} {}\ns.t.\n{}\nwhere\n    let n = {}\n    let A = [1, 2, 3]\n    let M = [[1, 2], [3]]\n    let G = Graph {{ A -> [B], B }}\ndefine\n    x, y as {}\n    x_i as Real for i in 0..{}", r.pick(&["min", "max"]), e(r, depth), cons.join("\n"), r.pick(&["3", "0", "2.5", "-1", "9223372036854775807"]), r.pick(&["Real", "Boolean", "IntegerRange(0, 3)", "NonNegativeReal", "Real(0, Infinity)", "IntegerRange(-2147483648, 2147483647)", "IntegerRange(0, 99999999999)"]), r.pick(&["5", "n", "len(A) + 2"]))
 }
 
@@ -88,6 +88,14 @@ fn main() {
                 "min x\ns.t.\n x >= avg {}\ndefine\n x as Real", "min x\ns.t.\n x >= min {}\ndefine\n x as Real", "min x\ns.t.\n x >= avg(i in 0..0) { i }\ndefine\n x as Real", "min x\ns.t.\n x >= max(i in 0..0) { i }\ndefine\n x as Real",
                 "min x\ns.t.\n x >= 1\ndefine\n x as IntegerRange(-99999999999, 99999999999)", "min x\ns.t.\n x >= 1\ndefine\n x as IntegerRange(3, 1)", "min x\ns.t.\n x >= 1\ndefine\n x as Real(5, 1)", "min x\ns.t.\n x >= 1e400\ndefine\n x as Real", "min \"s\"\ns.t.\n 1 >= 0", "min x\ns.t.\n x_{\"a b\"} >= 1\ndefine\n x as Real"] { put(s.to_string(), "fixed"); }
             put(format!("min {}x{}\ns.t.\n x >= 1\ndefine\n x as Real", "(".repeat(64), ")".repeat(64)), "fixed");
+            // integer arithmetic at the limits of the representation: every operator, both operand orders
+            let lim = ["9223372036854775807", "-9223372036854775807", "(-9223372036854775807 - 1)", "4611686018427387904", "-4611686018427387905", "2147483648", "2", "-2", "1", "-1", "0"];
+            for a in lim { for b in lim { for op in ["+", "-", "*", "/"] { put(format!("min x\ns.t.\n x >= k\nwhere\n let k = {} {} {}\ndefine\n x as Real", a, op, b), "limits"); } } }
+            for a in lim { put(format!("min x\ns.t.\n x_{{{}}} >= 1\ndefine\n x_i as Real for i in {}..{}", a, a, a), "limits"); put(format!("min x\ns.t.\n x >= sum(i in {}..={}) {{ i }}\ndefine\n x as Real", a, a), "limits"); }
+            // indexes at and around the length, names used more than once
+            for ix in ["len(A)", "3", "2", "len(A) - 1", "len(A) + 1", "-1", "0 - 1", "len(A) * 2"] { put(format!("min x\ns.t.\n x >= A[{}]\n x >= M[1][{}]\nwhere\n let A = [4, 5, 6]\n let M = [[1], [2, 3, 4]]\ndefine\n x as Real", ix, ix), "limits"); }
+            for k in 2..6 { let rows: Vec<String> = (0..k).map(|j| format!(" c: x >= {}", j)).collect(); put(format!("min x\ns.t.\n{}\ndefine\n x as Real", rows.join("\n")), "limits");
+                let rows: Vec<String> = (0..k).map(|j| format!(" c_i: x_i >= {} for i in 0..2", j)).collect(); put(format!("min x_0\ns.t.\n{}\n c__2: x_0 >= 7\ndefine\n x_i as Real for i in 0..2", rows.join("\n")), "limits"); }
             put(format!("min {}x\ns.t.\n x >= 1\ndefine\n x as Real", "-(".repeat(64) + &")".repeat(0)), "fixed");
             put(format!("min x\ns.t.\n {} x >= 1\ndefine\n x as Real", "not ".repeat(64)), "fixed");
             for i in 0..n {
